@@ -54,7 +54,7 @@ def corner_models(rng, n):
     out = []
     kinds = ["rank0", "rank1", "rank2", "rank3", "rank5", "prime", "batch2", "float", "uint8", "int16", "int32",
              "bool", "noquant", "peraxis_act", "unsupported", "big_kernel", "stride4", "unit", "dup_inputs",
-             "two_outputs", "int64"]
+             "two_outputs", "int64", "reshape_dyn", "custom_noopts", "bias40", "split_strided", "cpu_concat3"]
     for i in range(n):
         k = kinds[i % len(kinds)] if i < len(kinds) else rng.choice(kinds)
         net = netgen.Net(rng.randrange(1 << 16))
@@ -133,6 +133,36 @@ def corner_models(rng, n):
         elif k == "dup_inputs":
             x = net.fm("in", [1, 8, 8, 8], is_input=True)
             y = net.eltwise(rng.choice(["ADD", "MUL", "SUB"]), x, x)
+        elif k == "reshape_dyn":        # RESHAPE whose shape operand is a run-time tensor: must fall back to the CPU
+            x = net.fm("in", [1, 4, 4, 8], is_input=True)
+            x2 = net.fm("in2", [1, 4, 4, 8], is_input=True)
+            s = net.fm("shape", [2], "INT32", None, is_input=True)
+            a = net.eltwise("ADD", x, x2)
+            y = net.fm("out", [16, 8], "INT8", 0.1, -1)
+            net.op("RESHAPE", [a, s], [y], ["ReshapeOptions", {"NewShape": [16, 8]}])
+            fb = True
+        elif k == "custom_noopts":      # third-party custom operator without custom_options
+            x = net.fm("in", [1, 4, 4, 8], is_input=True)
+            y = net.fm("out", [1, 4, 4, 8])
+            net.op("CUSTOM", [net.conv(x, 8, 1)], [y], custom_code="ThirdPartyOp")
+            fb = True
+        elif k == "bias40":             # int16 convolution with an int64 bias of 40-bit magnitude
+            x = net.fm("in", [1, 4, 4, 8], "INT16", 0.001, 0, is_input=True)
+            y = net.conv(x, 8, 1, oscale=0.002)
+            b = net.t[net.o[-1]["inputs"][2]]
+            b["data"] = [(1 << 39) if i % 2 else -(1 << 39) for i in range(8)]
+        elif k == "split_strided":      # slice read fused into a strided operator
+            x = net.fm("in", [1, 8, 16, 8], is_input=True)
+            ys = net.split(x, 2, axis=2)
+            y = net.pool(ys[1], "MAX_POOL_2D", k=2, stride=2)
+        elif k == "cpu_concat3":        # CPU operator whose third operand comes from the NPU
+            x = net.fm("in", [1, 4, 4, 8], is_input=True)
+            a = net.fm("a", [1, 4, 4, 8], is_input=True)
+            b = net.fm("b", [1, 4, 4, 8], is_input=True)
+            c = net.conv(x, 8, 1, oscale=0.05, ozp=0)
+            y = net.fm("out", [1, 4, 4, 24])
+            net.op("CONCATENATION", [c, a, b], [y], ["ConcatenationOptions", {"Axis": 3, "FusedActivationFunction": 5}])
+            fb = True
         elif k == "two_outputs":
             x = net.fm("in", [1, 8, 8, 8], is_input=True)
             a = net.conv(x, 8, 3)
@@ -168,6 +198,12 @@ def _invoke(args):
           "diag": ("Error" in text) or ("error:" in text) or ("usage:" in r["stderr"]),
           "tb": "Traceback (most recent call last)" in text, "timeout": r["timeout"], "parses": parses}
     tail = [ln for ln in text.splitlines() if ln.strip()][-3:]
+    if ev["tb"]:
+        import re
+        frames = re.findall(r'File "[^"]*?([\w.]+\.py)", line \d+, in (\w+)', text)
+        exc = next((ln.strip() for ln in reversed(text.splitlines()) if re.match(r"^\w*(Error|Exception)\b", ln.strip())), "")
+        exc = re.sub(r"0x[0-9a-f]+|/var/tmp/\S+|\d{4,}", "#", exc)[:140]
+        tail = tail + ["%s @ %s:%s" % (exc, frames[-1][0], frames[-1][1]) if frames else exc]
     shutil.rmtree(sub, ignore_errors=True)
     return {"i": i, "ev": ev, "rc": r["rc"], "tail": tail, "args": r["args"][1:], "wall": r["wall"]}
 
